@@ -2,9 +2,9 @@
     computes with a square root is carried as a [surd] coef * sqrt(rad)).  [wf], [layers_wf],
     [edges_wf]: NamesAgree.v, Volume.v, ConnGeom.v.  Satisfiability of every hypothesis: the
     example_* theorems at the end (Witness.v). *)
-From Coq Require Import Ascii String List Bool ZArith QArith Qminmax Permutation.
+From Coq Require Import Ascii String List Bool ZArith QArith Qabs Qminmax Permutation.
 From PTBase Require Import Exn PyStr.
-From P Require Import FromGeo Arith Lists NamesAgree Volume ConnGeom Decode Witness.
+From P Require Import FromGeo Arith Lists NamesAgree Volume ConnGeom ConnNoDup Decode Witness.
 Import ListNotations.
 Open Scope Q_scope.
 
@@ -73,6 +73,15 @@ Theorem fromgeo_conns_eq_name_list_iff : forall g bm names cnl,
    exists cs, fromgeo_conns g bm = Ok cs /\ map ckey cs = map (map_pair bm) cnl).
 Proof. exact fromgeo_conns_names_iff. Qed.
 Print Assumptions fromgeo_conns_eq_name_list_iff.
+
+(** ... and the distinctness of the announced connection names need not be assumed: it follows from
+    the distinct block names when no two column connections join the same ordered pair of columns *)
+Theorem fromgeo_conns_eq_name_list_derived : forall g bm names,
+  wf g -> hpairs_distinct g -> block_name_list g = Ok names -> NoDup (map (apply_map bm) names) ->
+  exists cnl cs, block_connection_name_list g = Ok cnl /\ fromgeo_conns g bm = Ok cs /\
+                 map ckey cs = map (map_pair bm) cnl /\ NoDup (map (map_pair bm) cnl).
+Proof. exact fromgeo_conns_names_derived. Qed.
+Print Assumptions fromgeo_conns_eq_name_list_derived.
 
 (** the [names_decode] clause of [wf] follows from name lengths that fit the convention and
     [fix_blockname] leaving the composed names alone (third character not a digit) *)
@@ -189,12 +198,26 @@ Theorem horiz_dircos_level_and_truncated : forall g bm i l h k,
 Proof. exact horizontal_dircos_cases_lemma. Qed.
 Print Assumptions horiz_dircos_level_and_truncated.
 
+Theorem horiz_conn_permeability_direction : forall g bm i l h k,
+  horizontal_spec_at g bm i l h k ->
+  let dx := ccx (hcolB h) - ccx (hcolA h) in
+  let dy := ccy (hcolB h) - ccy (hcolA h) in
+  let d2x := pcos g * dx + psin g * dy in
+  let d2y := - psin g * dx + pcos g * dy in
+  (Qabs d2y <= Qabs d2x -> kdir k = 1%nat) /\ (Qabs d2x < Qabs d2y -> kdir k = 2%nat).
+Proof. exact horizontal_direction_lemma. Qed.
+Print Assumptions horiz_conn_permeability_direction.
+
 (** ** the hypotheses are satisfiable: a concrete geometry *)
 Theorem example_geometry_meets_hypotheses : forall atm, (atm <= 2)%nat ->
   wf (g_ex atm) /\ layers_wf (g_ex atm) /\ edges_wf (g_ex atm) /\ untilted (g_ex atm) /\
   tl (layers (g_ex atm)) <> [] /\ (forall c, In c (columns (g_ex atm)) -> bottom_of (g_ex atm) < csurf c).
 Proof. exact ex_hyps. Qed.
 Print Assumptions example_geometry_meets_hypotheses.
+
+Theorem example_column_pairs_distinct : forall atm, hpairs_distinct (g_ex atm).
+Proof. exact ex_hpairs. Qed.
+Print Assumptions example_column_pairs_distinct.
 
 Theorem example_names_nodup :
   block_name_list (g_ex 0) = Ok names_ex0 /\ NoDup (map (apply_map bm_ex) names_ex0) /\
